@@ -128,6 +128,59 @@ theorem updates_le (adv : Int → Bool) (A B : List (Node β))
     · have := ih _ (by omega) u hu
       omega
 
+/-- after a lane walk, no advancing node further on is on that lane: the walk really stopped at the
+lane-`i` predecessor of the advancing prefix's end -/
+theorem walkLane_stops (adv : Int → Bool) (i : Nat) (A B : List (Node β))
+    (hA : ∀ n ∈ A, adv n.score = true) :
+    ∀ n ∈ A.drop (walkLane adv i (A ++ B)), n.level ≤ i := by
+  induction A with
+  | nil => simp
+  | cons a rest ih =>
+    have ih := ih (fun x hx => hA x (by simp [hx]))
+    rw [List.cons_append]
+    unfold walkLane
+    split
+    · simp only [hA a (by simp), if_true]
+      rw [Nat.add_comm, List.drop_succ_cons]; exact ih
+    · rename_i hlane
+      split
+      · rename_i hk
+        rw [hk] at ih
+        intro n hn
+        simp only [List.drop_zero] at hn ih
+        rcases List.mem_cons.mp hn with rfl | hn
+        · omega
+        · exact ih n hn
+      · rename_i k hk
+        rw [hk] at ih
+        rw [List.drop_succ_cons]; exact ih
+
+/-- the `update[]` array is right: listing `update[lvl-1], …, update[0]`, between `update[i]` and the
+end of the advancing prefix there is no node on lane `i` -/
+def UpdOK (A : List (Node β)) : Nat → List Nat → Prop
+  | 0, us => us = []
+  | i + 1, [] => False
+  | i + 1, u :: us => (∀ n ∈ A.drop u, n.level ≤ i) ∧ UpdOK A i us
+
+theorem updates_ok (adv : Int → Bool) (A B : List (Node β))
+    (hA : ∀ n ∈ A, adv n.score = true) (hB : ∀ n ∈ B, adv n.score = false) :
+    ∀ (lvl pos : Nat), pos ≤ A.length → UpdOK A lvl (updates adv (A ++ B) lvl pos) := by
+  intro lvl
+  induction lvl with
+  | zero => intro pos _; simp [updates, UpdOK]
+  | succ i ih =>
+    intro pos hpos
+    unfold updates
+    simp only
+    rw [drop_append_le A B pos hpos]
+    have hA' : ∀ n ∈ A.drop pos, adv n.score = true := fun n hn => hA n (List.mem_of_mem_drop hn)
+    have hle := walkLane_le adv i (A.drop pos) B hB
+    rw [List.length_drop] at hle
+    refine ⟨?_, ih _ (by omega)⟩
+    have := walkLane_stops adv i (A.drop pos) B hA'
+    rw [List.drop_drop] at this
+    exact this
+
 /-! ### splitting a descending list at a threshold -/
 
 /-- `adv` is upward closed in the score (both comparisons used by the Go code are) -/
@@ -186,6 +239,21 @@ theorem drop_search (adv : Int → Bool) (hu : UpClosed adv) (sl : SkipList β) 
   rw [search_eq_takeWhile adv hu sl inv]
   conv => lhs; arg 2; rw [← List.takeWhile_append_dropWhile (p := fun n : Node β => adv n.score) (l := sl.nodes)]
   exact drop_len_append _ _
+
+/-- **the `update[]` array of `Insert`** (search with `Compare <= 0`): for every lane `i` below
+`sl.level`, no node between `update[i]` and the insertion point is on lane `i` — splicing the new
+node behind `update[i]` on lane `i` (what the pointer code does) is inserting it at the insertion
+point of the bottom lane and filtering by level (what the model does). -/
+theorem insert_updates_ok (sl : SkipList β) (inv : LanesInv sl) (score : Int) :
+    UpdOK (sl.nodes.takeWhile (fun n => decide (n.score ≥ score))) sl.level
+      (updates (fun s => decide (s ≥ score)) sl.nodes sl.level 0) := by
+  have hsplit := (List.takeWhile_append_dropWhile (p := fun n : Node β => decide (n.score ≥ score)) (l := sl.nodes))
+  have h := updates_ok (fun s => decide (s ≥ score)) (sl.nodes.takeWhile (fun n => decide (n.score ≥ score)))
+    (sl.nodes.dropWhile (fun n => decide (n.score ≥ score)))
+    (takeWhile_adv (fun s => decide (s ≥ score)) sl.nodes)
+    (desc_dropWhile_nonadv (fun s => decide (s ≥ score)) (upClosed_ge score) sl.nodes inv.sorted) sl.level 0 (Nat.zero_le _)
+  rw [hsplit] at h
+  exact h
 
 /-! ### Insert / Delete / Find as sorted-list operations -/
 
